@@ -18,8 +18,14 @@ Inductive obs := Obs (hs : bool) (disp : nat) (stamp : list key) (crash : bool) 
    incarnation), what it presents in a full handshake, its identity message,
    number of application messages it sent, observation *)
 Inductive case :=
-  Case (lv : level) (r : role) (s : suite) (holds : list key) (t : ticket) (h : hello) (id : ident)
-       (msgs : nat) (o : obs).
+| Case (lv : level) (r : role) (s : suite) (holds : list key) (t : ticket) (h : hello) (id : ident)
+       (msgs : nat) (o : obs)
+(* two overlapping dials of the honest host: it dials e (the link under
+   observation, nonce 0) and, before the peer answers, [other] (nonce 4 =
+   Tls.conc_nonce; answered honestly by a holder of [other]); then the peer
+   answers the first dial with h.  [other_up]: the second link came up. *)
+| CaseConc (s : suite) (holds : list key) (e other : key) (h : hello) (msgs : nat) (o : obs)
+           (other_up : bool).
 
 (* The variant of the model the implementation is compared with.  The
    integrator flips this when proposed_fixes/C08-F09.diff lands in /repo. *)
@@ -41,13 +47,38 @@ Fixpoint keys_eqb (a b : list key) : bool :=
   | _, _ => false
   end.
 
-Definition agree (c : case) : bool :=
+(* /repo builds a fresh tls.Config per dial (NewTLSConn): the verifier state of a
+   dial is private.  [true] would be the variant whose dials share one slot. *)
+Definition code_dials_share_verifier := false.
+
+(* the model's prediction: outcome, and whether the connection is a resumed session *)
+Definition model_of (c : case) : outcome * bool :=
   match c with
-  | Case lv r s _ t h id msgs (Obs hs disp stamp crash hp resumed) =>
-      let '(m, rs) := link_r code_fx lv r s t h id msgs in
+  | Case lv r s _ t h id msgs _ => link_r code_fx lv r s t h id msgs
+  | CaseConc s _ e other h msgs _ _ =>
+      (conc_dial code_dials_share_verifier code_fx s e other h msgs, false)
+  end.
+
+Definition obs_of (c : case) : obs :=
+  match c with Case _ _ _ _ _ _ _ _ o => o | CaseConc _ _ _ _ _ _ o _ => o end.
+
+(* observations beside the link under observation *)
+Definition extra_ok (c : case) : bool :=
+  match c with
+  | Case _ _ _ _ _ _ _ _ _ => true
+  | CaseConc s _ e other _ _ _ other_up =>
+      Bool.eqb (conc_other_up code_dials_share_verifier code_fx s e other 1) other_up
+  end.
+
+Definition obs_agrees (m : outcome) (rs : bool) (o : obs) : bool :=
+  match o with
+  | Obs hs disp stamp crash hp resumed =>
       Bool.eqb (out_crash m) crash && Bool.eqb (out_hs m) hs && (out_disp m =? disp) &&
       keys_eqb (out_stamp m) stamp && hp && Bool.eqb rs resumed
   end.
+
+Definition agree (c : case) : bool :=
+  let '(m, rs) := model_of c in obs_agrees m rs (obs_of c) && extra_ok c.
 
 Definition mismatches (l : list case) : list nat := mism_idx agree l.
 
@@ -58,6 +89,9 @@ Definition check (c : case) : list nat :=
   | Case lv r s holds t h id _ (Obs hs disp stamp crash _ resumed) =>
       (* on a resumption the peer presented nothing but the ticket *)
       prop_check lv r s holds (effective resumed t h) id hs disp stamp crash
+  | CaseConc s holds e _ h _ (Obs hs disp stamp crash _ _) _ =>
+      (* the link dialled for e: this dial's nonce is 0, the other dial's is not *)
+      prop_check LTls (RDial e) s holds h IdMatch hs disp stamp crash
   end.
 
 Definition violations (l : list case) : list (nat * nat) := viols check l.
